@@ -69,6 +69,19 @@ class C18(Prop):
                 c['stream'] += ':csv'
                 c['extra_queries'] = [[rng.choice(c['assets']), rng.randint(cfg['start'] - 5 * DAY, cfg['end'] + 5 * DAY)] for _ in range(20)]
             c['mode'] = 'twice'
+            if c['market']['kind'] == 'csv' and rng.random() < 0.6:
+                # the data source first serves a DIFFERENT (later, overlapping or disjoint) session
+                cfg = c['cfg']
+                shift = rng.choice([3, 10, 25, 60]) * DAY
+                other = dict(cfg, start=cfg['start'] + shift, end=cfg['end'] + shift)
+                if other.get('burn') is not None:
+                    other['burn'] = other['burn'] + shift
+                if other['universe'][0] == 'dynamic':
+                    other['universe'] = ['dynamic', [[a, (None if e is None else e + shift)] for a, e in other['universe'][1]]]
+                c['cfg_other'] = other
+                c['market'] = csv_market(rng, c['assets'], cfg['start'] // DAY, (cfg['end'] + shift) // DAY, c['exact'])
+                c['mode'] = 'after_other'
+                c['stream'] += ':reused'
             out.append(c)
         return out
 
